@@ -296,6 +296,27 @@ Definition vcmp (a b : value) : cres :=
   | _, _ => CCross
   end.
 
+(* type classes of values; NULL belongs to every class *)
+Inductive vclass : Type := CNum | CStr | CBool.
+Definition class_of (v : value) : option vclass :=
+  match v with
+  | VNull => None
+  | VBool _ => Some CBool
+  | VInt _ | VFloat _ => Some CNum
+  | VStr _ => Some CStr
+  end.
+Definition same_class (a b : value) : bool :=
+  match class_of a, class_of b with
+  | Some CNum, Some CNum | Some CStr, Some CStr | Some CBool, Some CBool => true
+  | Some _, Some _ => false
+  | _, _ => true
+  end.
+Definition uniform (g : list value) : bool := forallb (fun a => forallb (same_class a) g) g.
+Definition is_vfloat (v : value) : bool := match v with VFloat _ => true | _ => false end.
+(* integer -> Float64 when the group's common type is Float64 *)
+Definition prom (fl : bool) (v : value) : value :=
+  if fl then match v with VInt z => VFloat (Z2F z) | _ => v end else v.
+
 Section Sat.
   (* What the engine makes of a comparison between different type classes
      (string against number, boolean against string, ...) is left open: the
@@ -310,8 +331,25 @@ Section Sat.
     | CCross => xc o a b
     end.
 
+  (* BETWEEN and IN are coerced as a group: the engine brings the column and
+     all literals of the list to one common type before comparing.  Within
+     the numbers that type is Float64 as soon as one member is a float
+     ([prom]); what happens when the members belong to different type classes
+     (numbers cast to strings ...) is left open ([xg]). *)
+  Variable xg : list value -> tv.
+
+  Definition group_tv (g : list value) (t : tv) : tv := if uniform g then t else xg g.
+
+  Definition between_tv (x a b : value) : tv :=
+    let g := [x; a; b] in
+    let fl := existsb is_vfloat g in
+    group_tv g (tv_and (cmp_tv OGe (prom fl x) (prom fl a)) (cmp_tv OLe (prom fl x) (prom fl b))).
+
   Definition in_tv (x : value) (vs : list pval) : tv :=
-    fold_right (fun v acc => tv_or (cmp_tv OEq x (lit v)) acc) FF vs.
+    let ls := map lit vs in
+    let g := x :: ls in
+    let fl := existsb is_vfloat g in
+    group_tv g (fold_right (fun l acc => tv_or (cmp_tv OEq (prom fl x) (prom fl l)) acc) FF ls).
 
   Fixpoint sat (p : pred) (r : row) : tv :=
     match p with
@@ -323,8 +361,7 @@ Section Sat.
     | PGtEq c v => cmp_tv OGe (rget c r) (lit v)
     | PIn c vs => in_tv (rget c r) vs
     | PNotIn c vs => tv_not (in_tv (rget c r) vs)
-    | PBetween c lo hi =>
-        tv_and (cmp_tv OGe (rget c r) (lit lo)) (cmp_tv OLe (rget c r) (lit hi))
+    | PBetween c lo hi => between_tv (rget c r) (lit lo) (lit hi)
     | PAnd l q => tv_and (sat l r) (sat q r)
     | POr l q => tv_or (sat l r) (sat q r)
     | PNot q => tv_not (sat q r)
@@ -367,31 +404,59 @@ Definition in_statsb (r : row) (st : stats) : bool :=
   forallb (fun cs => within (rget (fst cs) r) (snd cs)) st.
 
 (* ------------------------------------------------------------------ *)
-(* Known class: an integer literal compared against integer-typed
-   statistics while the row holds a float in that column.  The code compares
-   literal and statistic exactly (in i64), the engine compares row and literal
-   in f64, where distinct integers above 2^53 collapse. *)
+(* Known class: the code compares an integer literal with integer-typed
+   statistics exactly (in i64) where the engine compares in another type:
+   in f64 because the row value is a float or because a float literal stands
+   in the same BETWEEN / IN list (distinct integers above 2^53 collapse), or
+   in a type outside the numbers because the members of the BETWEEN / IN
+   group belong to different type classes (e.g. numbers cast to strings). *)
 
 Definition is_jint (j : json) : bool := match j with JInt _ => true | _ => false end.
+Definition is_pint (v : pval) : bool := match v with PInt _ => true | _ => false end.
 Definition mixed_atom (v : pval) (s : cstats) (x : value) : bool :=
   match v, x with
   | PInt _, VFloat _ => is_jint (st_min s) || is_jint (st_max s)
   | _, _ => false
   end.
+Definition group_known (x : value) (lits : list pval) (s : cstats) : bool :=
+  let g := x :: map lit lits in
+  negb (uniform g) ||
+  (existsb is_vfloat g && existsb is_pint lits && (is_jint (st_min s) || is_jint (st_max s))).
 Fixpoint known_mixed (p : pred) (st : stats) (r : row) : bool :=
   match p with
   | PEq c v | PLtEq c v | PGtEq c v =>
       match cget c st with Some s => mixed_atom v s (rget c r) | None => false end
   | PIn c vs =>
-      match cget c st with Some s => existsb (fun v => mixed_atom v s (rget c r)) vs | None => false end
+      match cget c st with Some s => group_known (rget c r) vs s | None => false end
   | PBetween c lo hi =>
-      match cget c st with
-      | Some s => mixed_atom lo s (rget c r) || mixed_atom hi s (rget c r)
-      | None => false
-      end
+      match cget c st with Some s => group_known (rget c r) [lo; hi] s | None => false end
   | PAnd l q | POr l q => known_mixed l st r || known_mixed q st r
   | PLt _ _ | PGt _ _ | PNotEq _ _ | PNotIn _ _ | PNot _ => false
   end.
+
+(* ------------------------------------------------------------------ *)
+(* Well-typed inputs (no implicit coercion): every column has one type; row
+   values and the literals compared with the column are NULL or of that type. *)
+
+Inductive vtype : Type := TInt | TFloat | TStr | TBool.
+Definition val_has (t : vtype) (v : value) : bool :=
+  match v, t with
+  | VNull, _ => true
+  | VInt _, TInt | VFloat _, TFloat | VStr _, TStr | VBool _, TBool => true
+  | _, _ => false
+  end.
+Definition lit_has (t : vtype) (v : pval) : bool := val_has t (lit v).
+Definition typing := colname -> vtype.
+Fixpoint pred_typed (ty : typing) (p : pred) : bool :=
+  match p with
+  | PEq c v | PNotEq c v | PLt c v | PLtEq c v | PGt c v | PGtEq c v => lit_has (ty c) v
+  | PIn c vs | PNotIn c vs => forallb (lit_has (ty c)) vs
+  | PBetween c lo hi => lit_has (ty c) lo && lit_has (ty c) hi
+  | PAnd l q | POr l q => pred_typed ty l && pred_typed ty q
+  | PNot q => pred_typed ty q
+  end.
+Definition row_typed (ty : typing) (r : row) : Prop :=
+  forall c, val_has (ty c) (rget c r) = true.
 
 (* ------------------------------------------------------------------ *)
 (* convert_expr_to_predicate (src/query/engine.rs)                      *)
@@ -507,6 +572,7 @@ Definition convert_negation_dropped : expr -> option pred := convert_gen false.
    given UU; the conversion returns None there, so nothing depends on it). *)
 Section ESat.
   Variable xc : cop -> value -> value -> tv.
+  Variable xg : list value -> tv.
 
   Definition scalar_value (e : expr) : option value :=
     match convert_scalar e with Some v => Some (lit v) | None => None end.
@@ -532,13 +598,13 @@ Section ESat.
     | EBetween (ECol c) negated lo hi =>
         match scalar_value lo, scalar_value hi with
         | Some a, Some b =>
-            let t := tv_and (cmp_tv xc OGe (rget c r) a) (cmp_tv xc OLe (rget c r) b) in
+            let t := between_tv xc xg (rget c r) a b in
             if negated then tv_not t else t
         | _, _ => UU
         end
     | EInList (ECol c) l negated =>
         match convert_scalars l with
-        | Some vs => let t := in_tv xc (rget c r) vs in if negated then tv_not t else t
+        | Some vs => let t := in_tv xc xg (rget c r) vs in if negated then tv_not t else t
         | None => UU
         end
     | ENot e' => tv_not (esat e' r)
